@@ -46,7 +46,8 @@ def _worker(args):
     except Exception:
         err = traceback.format_exc()
     st = E.stats.as_dict()
-    return dict(cfg=cfg, stats=st, findings=E.findings[:20], nfindings=len(E.findings), samples=E.samples, cov=sorted(instr.COV), err=err, wall=time.time() - t0)
+    fs = sorted(E.findings, key=lambda f: (not f.get("robust", False), bool(f.get("undecided"))))
+    return dict(cfg=cfg, stats=st, findings=fs[:20], nfindings=len(E.findings), samples=E.samples, cov=sorted(instr.COV), err=err, wall=time.time() - t0)
 
 
 def _replay(modname, cfg, finding, idx, pid):
